@@ -18,6 +18,7 @@ import (
 	"bufio"
 	"bytes"
 	"encoding"
+	"encoding/json"
 	"errors"
 	"fmt"
 	"io"
@@ -27,6 +28,7 @@ import (
 	"net/http/httputil"
 	"os"
 	"time"
+	"unicode/utf8"
 )
 
 // Response represents a cached HTTP response entry.
@@ -171,6 +173,50 @@ func (r ResponseRef) LogValue() slog.Value {
 		slog.Any("vary_resolved", r.VaryResolved),
 		slog.Time("received_at", r.ReceivedAt),
 	)
+}
+
+// responseRefJSON is the wire form of a [ResponseRef]. JSON strings cannot carry
+// header values that are not valid UTF-8 (obs-text); those are kept, byte for
+// byte, in VaryResolvedRaw (base64 in JSON).
+type responseRefJSON struct {
+	ResponseID      string            `json:"id"`
+	Vary            string            `json:"vary"`
+	VaryResolved    map[string]string `json:"vary_resolved"`
+	VaryResolvedRaw map[string][]byte `json:"vary_resolved_raw,omitempty"`
+	ReceivedAt      time.Time         `json:"received_at,omitzero"`
+}
+
+func (r ResponseRef) MarshalJSON() ([]byte, error) {
+	aux := responseRefJSON{
+		ResponseID:   r.ResponseID,
+		Vary:         r.Vary,
+		VaryResolved: r.VaryResolved,
+		ReceivedAt:   r.ReceivedAt,
+	}
+	for field, value := range r.VaryResolved {
+		if !utf8.ValidString(value) {
+			if aux.VaryResolvedRaw == nil {
+				aux.VaryResolvedRaw = make(map[string][]byte)
+			}
+			aux.VaryResolvedRaw[field] = []byte(value)
+		}
+	}
+	return json.Marshal(aux)
+}
+
+func (r *ResponseRef) UnmarshalJSON(data []byte) error {
+	var aux responseRefJSON
+	if err := json.Unmarshal(data, &aux); err != nil {
+		return err
+	}
+	r.ResponseID, r.Vary, r.VaryResolved, r.ReceivedAt = aux.ResponseID, aux.Vary, aux.VaryResolved, aux.ReceivedAt
+	for field, value := range aux.VaryResolvedRaw {
+		if r.VaryResolved == nil {
+			r.VaryResolved = make(map[string]string)
+		}
+		r.VaryResolved[field] = string(value)
+	}
+	return nil
 }
 
 type ResponseRefs []*ResponseRef
